@@ -377,8 +377,15 @@ func (p *Parser) parseAmount() *ast.Amount {
 	}
 	numberStr := rawNumberStr
 
+	groupedWithBlanks := strings.Contains(numberStr, " ")
 	numberStr = strings.ReplaceAll(numberStr, " ", "")
-	numberStr = normalizeNumber(numberStr)
+	if groupedWithBlanks && strings.Count(numberStr, ".")+strings.Count(numberStr, ",") == 1 {
+		// Blanks are the digit group marks here, so the one point or comma can only be
+		// the decimal mark, however many digits follow it.
+		numberStr = strings.Replace(numberStr, ",", ".", 1)
+	} else {
+		numberStr = normalizeNumber(numberStr)
+	}
 
 	qty, err := decimal.NewFromString(numberStr)
 	if err != nil {
